@@ -98,6 +98,12 @@ pub fn any_for(prop: &str) -> bool {
     untracked(|| lock().v.iter().any(|v| v.clause.starts_with("M.") || v.props.iter().any(|p| *p == prop)))
 }
 
+/// number of recorded violations of one clause (lets an engine re-attribute an allocator-level finding
+/// to the API path that caused it)
+pub fn count_clause(clause: &str) -> usize {
+    untracked(|| lock().v.iter().filter(|v| v.clause == clause).count())
+}
+
 pub fn known_hits() -> BTreeMap<String, (u64, String)> {
     untracked(|| lock().known_hits.clone())
 }
